@@ -37,6 +37,8 @@ NOTES = {
  "C10-m4": "strengthened: an administrator changes another user's password, then a restart (journal replay must change that user's, not the issuer's); get_me made observable by granting read_servers",
  "C09-m4": "strengthened: requests after logout on the same connection must be unauthenticated",
  "C12-m2": "strengthened: producers poll from their own cursor right after each send (no-wait window)",
+ "C06-m5": "strengthened (in C06): every listed consumer group must span the topic's partitions, in the listing and in its details (was caught by C08 only)",
+ "C06-m6": "strengthened (in C08): the same-numbered group also lives in the same-numbered topic of a second stream (was caught by C06 only)",
 }
 rows = []
 for d in sorted(glob.glob("/verif/seeded/*")):
